@@ -63,8 +63,38 @@ def load_known():
         head, _, text = line[len("finding:"):].partition("::")
         kv = dict(x.split("=", 1) for x in head.split())
         kv["text"] = text.strip()
+        kv["properties"] = kv.get("property", "").split(",")
         out.append(kv)
     return out
+
+
+def carve_for(known, unit):
+    """{normalised obligation name: chi}  for one unit"""
+    u = "%s:%s.%s" % unit
+    out = {}
+    for k in known:
+        ob = k.get("obligation", "")
+        if ob.startswith(u + "/"):
+            out[ob[len(u) + 1:]] = k.get("chi", "always")
+    return out
+
+
+_witness_cache = {}
+
+
+def run_witness(script):
+    """native witness of a known finding: exit 1 = the defect is (still) present in /repo"""
+    if script in _witness_cache:
+        return _witness_cache[script]
+    repo = os.environ.get("PYVC_REPO", "/repo")
+    try:
+        cp = subprocess.run(["/venv/bin/python", os.path.join(ROOT, script)], capture_output=True, text=True,
+                            timeout=180, env=dict(os.environ, PYTHONPATH=os.path.join(repo, "src")))
+        r = (cp.returncode, (cp.stdout + cp.stderr)[-600:])
+    except Exception as e:
+        r = (99, repr(e))
+    _witness_cache[script] = r
+    return r
 
 
 def main():
@@ -86,15 +116,24 @@ def main():
         if not units:
             print("no verification unit carries property %s" % prop)
             return 3
-        tasks = [(u[0], u[1], u[2], timeout_ms, True) for u in units]
+        all_known = load_known()
+        tasks = []
+        for u in units:
+            n = U.shards_for(u)
+            cv = carve_for(all_known, u)
+            if n <= 1:
+                tasks.append((u[0], u[1], u[2], timeout_ms, True, None, cv))
+            else:
+                tasks.extend((u[0], u[1], u[2], timeout_ms, True, (i, n), cv) for i in range(n))
         # longest first
         with mp.Pool(args.jobs, maxtasksperchild=1) as pool:
-            results = pool.map(U.run_unit, tasks, chunksize=1)
+            shard_results = pool.map(U.run_unit, tasks, chunksize=1)
+        results = merge_shards(shard_results)
     except Exception as e:
         import traceback
         traceback.print_exc()
         return 3
-    known = [k for k in load_known() if k.get("property") == prop]
+    known = [k for k in all_known if prop in k["properties"]]
     total = discharged = 0
     refuted = []
     undecided = []
@@ -103,6 +142,7 @@ def main():
     solver_s = 0.0
     samples = []
     vacuous = []
+    carved = []
     for r in results:
         if r.get("crash"):
             crashed.append(r)
@@ -120,7 +160,11 @@ def main():
             nrel += 1
             total += 1
             solver_s += o["seconds"]
-            if o["status"] == "proved":
+            if o["status"] == "carved":
+                # known finding: holds outside its characteristic condition; inside it the finding is recorded
+                total -= 1
+                carved.append((r, o))
+            elif o["status"] == "proved":
                 discharged += 1
                 if len(samples) < 4 and o["kind"] in ("post", "inv"):
                     samples.append({"unit": r["unit"], "obligation": o["name"], "kind": o["kind"],
@@ -137,25 +181,35 @@ def main():
     violations = []
     known_hits = []
     for r, o in refuted:
-        key = "%s/%s" % (r["unit"], norm_name(o["name"]))
-        hit = None
-        for k in known:
-            if k.get("obligation") == key:
-                hit = k
-                break
-        if hit is not None:
-            known_hits.append((hit, r, o))
-        else:
-            violations.append((r, o))
+        violations.append((r, o))
     out_lines = []
     rc = 0
     seen_known = set()
-    for hit, r, o in known_hits:
-        kid = hit.get("obligation")
-        if kid in seen_known:
+    by_key = {}
+    for r, o in carved:
+        key = "%s/%s" % (r["unit"], norm_name(o["name"]))
+        by_key.setdefault(key, []).append((r, o))
+    for key, lst in sorted(by_key.items()):
+        hit = None
+        for k in all_known:
+            if k.get("obligation") == key:
+                hit = k
+        if hit is None:
             continue
-        seen_known.add(kid)
-        out_lines.append("KNOWN-FINDING: property=%s %s :: %s" % (prop, kid, hit["text"]))
+        failing = [(r, o) for r, o in lst if o.get("inside_chi") != "proved"]
+        if not failing:
+            out_lines.append("NOTE: known finding no longer reproduces in the verifier: %s" % key)
+            continue
+        r, o = failing[0]
+        wrc, wout = run_witness(hit["witness"]) if hit.get("witness") else (1, "")
+        if wrc == 1:
+            seen_known.add(key)
+            known_hits.append((hit, r, o))
+            out_lines.append("KNOWN-FINDING: property=%s %s [chi=%s; verifier: %s inside chi; native witness %s still fails] :: %s"
+                             % (prop, key, hit.get("chi", "always"), o.get("inside_chi"), hit.get("witness"), hit["text"]))
+        else:
+            # the recorded history no longer fails natively but the obligation still does: not the known finding
+            violations.append((r, o))
     replay_files = []
     for r, o in violations:
         path = write_replay(prop, r, o)
@@ -185,14 +239,15 @@ def main():
     ev = {
         "property_id": prop, "tier": tier, "seed": seed, "level": "proof",
         "coverage": {
-            "obligations": total - len(known_hits),
+            "obligations": total,
             "discharged": discharged,
             "checker_cmd": "python3-vt checks/check.py %s --tier %s" % (prop, tier),
             "trusted_base": TRUSTED_BASE,
             "backend": {"z3": total},
             "solver_seconds": round(solver_s, 2),
             "functions_under_contract": functions,
-            "known_findings": [{"obligation": h.get("obligation"), "text": h["text"]} for h, _r, _o in known_hits],
+            "known_findings": [{"obligation": h.get("obligation"), "chi": h.get("chi", "always"),
+                                "witness": h.get("witness"), "text": h["text"]} for h, _r, _o in known_hits],
             "refuted_new": len(violations),
             "undecided": [list(u) for u in undecided[:50]],
             "dropped_by_extraction": DROPPED,
@@ -211,6 +266,24 @@ def main():
     print("%s: %d obligations, %d discharged, %d known findings, %d new violations, %d undecided; %d units; %.1fs (exit %d)"
           % (prop, total, discharged, len(seen_known), len(violations), len(undecided), len(results), wall, rc))
     return rc
+
+
+def merge_shards(rs):
+    out = {}
+    order = []
+    for r in rs:
+        u = r["unit"]
+        if u not in out:
+            out[u] = r
+            order.append(u)
+            continue
+        m = out[u]
+        m["obligations"] = m["obligations"] + r["obligations"]
+        m["seconds"] = max(m.get("seconds", 0), r.get("seconds", 0))
+        for k in ("crash", "unsupported"):
+            if r.get(k) and not m.get(k):
+                m[k] = r[k]
+    return [out[u] for u in order]
 
 
 def load_expected():
